@@ -427,7 +427,7 @@ def run(ctx):
                       nontrivial=bool(o.get("ops") or o.get("scans") or o.get("sent")),
                       sample={k: (v[:6] if isinstance(v, list) else v) for k, v in o.items() if k not in ("kind",)})
     if os.path.exists(os.path.join(verif.ROOT, "harness", "bin", "c15")):
-        erows = e2e_runs(ctx, [(ctx.seed + d) % N_ARP_SPECS for d in (0, 2, 5)]) if quick else deep_stage(ctx)
+        erows = e2e_runs(ctx, [(ctx.seed + d) % N_ARP_SPECS for d in (0, 3)] + [IDX_CHUNKS]) if quick else deep_stage(ctx)
         srows = [o for o in erows if o["kind"] == "slow"]
         erows = [o for o in erows if o["kind"] == "e2e"]
         for o in srows:
@@ -480,7 +480,8 @@ def run(ctx):
             for o in deep:
                 if o.get("err") and o["kind"] == "e2e":
                     ctx.skipped.append("e2e sx %s --rate %s: %s" % (o["cmd"], o["rate_str"], o["err"]))
-            judge(ctx, [o for o in deep if not (o.get("err") and o["kind"] == "e2e")], a2)
+            deep.sort(key=lambda o: (o["kind"], o.get("id", 0) < IDX_CHUNKS))     # packet-path evidence first
+            judge(ctx, [o for o in deep if not (o.get("err") and o["kind"] == "e2e")], a2, limit=4)
     return ctx.finish(rule=RULE)
 
 
